@@ -103,7 +103,10 @@ def decodeCell (sst : List Text) (c : Node) : CellV × List String :=
   let t := str ((c.attr? "t".toList).getD "n".toList)
   let style := ((c.attr? "s".toList).bind natOf).getD 0
   let v := (c.kid? "v").map (·.ownText)
-  let f := (c.kid? "f").map (·.ownText)
+  -- a shared-formula child (`<f t="shared" si=…/>` without text) refers to its master's text;
+  -- it is reported as such (marker) — the expansion rule belongs to the shared-formula decoder
+  let f := (c.kid? "f").map (fun fe =>
+    if fe.attr? "t".toList = some "shared".toList ∧ fe.ownText.isEmpty then (Char.ofNat 1 :: "shared".toList) else fe.ownText)
   let (kind, value, errs) : String × Text × List String :=
     match t with
     | "s" =>
